@@ -453,11 +453,18 @@ def call_flow(body, bb):
                         tracked[t.dest.local] = ('cf', pos)
                         work.append(t.dest.local)
                 elif names & _BOOL_POS:
-                    tracked[t.dest.local] = ('bool', pos)
-                    work.append(t.dest.local)
+                    if t.dest.is_local() and t.dest.local == 0:
+                        cf.forward_blocks.add(ubb)
+                    else:
+                        tracked[t.dest.local] = ('bool', pos)
+                        work.append(t.dest.local)
                 elif names & _BOOL_NEG:
-                    tracked[t.dest.local] = ('bool', not pos)
-                    work.append(t.dest.local)
+                    if t.dest.is_local() and t.dest.local == 0:
+                        cf.forward_blocks.add(ubb)
+                        cf.forward_swapped = True
+                    else:
+                        tracked[t.dest.local] = ('bool', not pos)
+                        work.append(t.dest.local)
                 elif names & _PANIC_ON_FAIL:
                     cf.split = True
                     if t.target is not None:
